@@ -5,7 +5,7 @@ LEAN_TARGETS = ['DawgieVerif.Model.SchedIO']
 TRUSTED = sched_run.TRUSTED
 MANIFEST = dict(
     text='Lean theorems over Model/Sched.lean for the scheduling clauses: update_complete (every direct dependent declaring a reported-new value as input, and every feedback consumer, gets the affected target(s) pending and is queued), update_minimal and growth_has_cause (in every step pending work grows only by an explicit/versions request naming the node, a timer event naming it, or a success report with a new value it consumes), released_was_pending. Tied to the real schedule.update/organize and farm.Hand._res by op-by-op correspondence; the monitor checks each real success report against the declared inputs of the synthetic engine.',
-    note="PARTIAL: the consequence 'stored results at quiescence equal a from-scratch run' (quiescent_fresh) is NOT proved and not tied (needs the store model and assumptions on user algorithms); transitivity is obtained by applying the step theorems to every later report, not stated as one theorem. Target names contain no '.' (schedule.update recovers the target with split('.')). Trusted base as C01.",
+    note="PARTIAL: the consequence 'stored results at quiescence equal a from-scratch run' (quiescent_fresh) is NOT proved as a theorem; it is checked on the real scheduler by the epoch scenario (deterministic digest-valued algorithms, a reference content-addressed store deciding novelty, root re-runs, comparison with a from-scratch evaluation at quiescence) on every feedback-free shape; transitivity is obtained by applying the step theorems to every later report, not stated as one theorem. Target names contain no '.' (schedule.update recovers the target with split('.')). Trusted base as C01.",
     technique='Lean 4 proof: decision logic of update/organize stated outright, case analysis over all ops + differential correspondence',
     design='7/C02',
 )
